@@ -166,6 +166,9 @@ impl Shl<u32> for F64 {
     #[inline]
     #[allow(clippy::suspicious_arithmetic_impl)]
     fn shl(self, rhs: u32) -> F64 {
+        if self.0 == 0. {
+            return self; // `0 * 2^rhs` is 0 (for `rhs >= 1024`, `0. * inf` is NaN)
+        }
         F64(self.0 * (rhs as f64).exp2())
     }
 }
